@@ -78,10 +78,31 @@ def exception_bucket(prefix, exc):
     return "%s:exception:%s@%s" % (prefix, type(exc).__name__, where)
 
 
+class CaseTimeout(BaseException):
+    """A single case ran longer than CASE_LIMIT_S (thousands of times the
+    normal cost of a case): the code under test is looping."""
+
+
+CASE_LIMIT_S = float(os.environ.get("VERIF_CASE_LIMIT_S", "20"))
+
+
+def _on_alarm(signum, frame):
+    raise CaseTimeout()
+
+
 def safe_run(run_case, case, prefix):
-    """run_case, with any escaping exception turned into a failure bucket."""
+    """run_case, with any escaping exception turned into a failure bucket.
+    A hang breaker (SIGALRM, generous limit) turns a non-terminating case into
+    the bucket '<prefix>:hang' instead of stalling the whole shard."""
+    import signal
+
+    old = signal.signal(signal.SIGALRM, _on_alarm)
+    signal.setitimer(signal.ITIMER_REAL, CASE_LIMIT_S)
     try:
         res = run_case(case)
+    except CaseTimeout:
+        res = CaseResult()
+        res.fail("%s:hang" % prefix, "case did not finish within %.0fs" % CASE_LIMIT_S)
     except (KeyboardInterrupt, SystemExit, MemoryError):
         raise
     except BaseException as e:  # noqa
@@ -90,6 +111,9 @@ def safe_run(run_case, case, prefix):
             exception_bucket(prefix, e),
             "".join(traceback.format_exception(type(e), e, e.__traceback__))[-1800:],
         )
+    finally:
+        signal.setitimer(signal.ITIMER_REAL, 0)
+        signal.signal(signal.SIGALRM, old)
     return res
 
 
@@ -238,7 +262,8 @@ class Collector:
                 res = safe_run(run_case, cand, self.prefix)
                 return any(b == bucket for b, _ in res.failures)
 
-            small, evals = shrink(case, still_fails, max_shrink_evals)
+            budget = 3 if bucket.endswith(":hang") else max_shrink_evals
+            small, evals = shrink(case, still_fails, budget)
             res = safe_run(run_case, small, self.prefix)
             det = [d for b, d in res.failures if b == bucket]
             r["failures"].append(
@@ -251,6 +276,10 @@ class Collector:
                 }
             )
         return r
+
+
+class _StopGeneration(Exception):
+    pass
 
 
 def run_hypothesis(strategy, run_case, *, prefix, n_examples, seed, max_shrink_evals=300,
@@ -278,10 +307,21 @@ def run_hypothesis(strategy, run_case, *, prefix, n_examples, seed, max_shrink_e
     )
     @given(strategy)
     def prop(case):
-        col.record(case, safe_run(run_case, case, prefix))
+        if state["stop"]:
+            raise _StopGeneration()
+        res = safe_run(run_case, case, prefix)
+        col.record(case, res)
+        if any(b.endswith(":hang") for b, _ in res.failures):
+            state["hangs"] += 1
+            if state["hangs"] >= 2:
+                # every further hang costs CASE_LIMIT_S; the failure is recorded
+                state["stop"] = True
 
+    state = {"stop": False, "hangs": 0}
     try:
         prop()
+    except _StopGeneration:
+        bump(col.result["counters"], "generation_stopped_after_hangs")
     except hypothesis.errors.FailedHealthCheck as e:
         col.result["errors"].append("hypothesis health check: %s" % (e,))
     except hypothesis.errors.HypothesisException as e:
